@@ -194,6 +194,23 @@ def main():
                         continue
                     for nb in range(1, 9):
                         yield rl, nb
+            # longer lists (3..6 ranges, many of them single values): leftovers spanning several ranges
+            for _ in range(6000 if tier == "thorough" else 500):
+                k = rng.randint(3, min(6, (hi + 1) // 2))
+                cuts = sorted(rng.sample(range(0, hi + 1), 2 * k)) if hi + 1 >= 2 * k else None
+                if cuts is None:
+                    continue
+                rl = []
+                for i in range(k):
+                    a, b = cuts[2 * i], cuts[2 * i + 1]
+                    if rng.random() < 0.5:
+                        b = a
+                    if rl and a <= rl[-1][1]:
+                        continue
+                    rl.append([a, b])
+                if len(rl) >= 3:
+                    for nb in rng.sample(range(1, 9), 3):
+                        yield rl, nb
         for rl, nb in coll_cases():
             try:
                 c = CoverpointBinCollectionModel.mk_collection("a", RangelistModel([list(x) for x in rl]), nb)
